@@ -90,7 +90,11 @@ def c07(cx):
     return conn_family(
         cx, "MC_C07", "C07", 500, 10000,
         consts_thorough={"MaxVer": 3},
-        rule="TLC explores every history of Parse/Bind/Describe/Execute/Close over statement names {'',a} and portal "
+        extra_models=[("MC_C07", "MC_C07_cache.cfg", None, {"MaxSends": 11})],
+        rule="With user-supplied statement and portal caches (options Statements / Portals, second model configuration "
+             "and part of the random sessions) every call the library makes on them - Set, Get with its outcome, Bind, "
+             "Execute, Close, with the name - is part of the recording and must be the call the specification "
+             "prescribes for the message. TLC explores every history of Parse/Bind/Describe/Execute/Close over statement names {'',a} and portal "
              "names {'',p} (each followed by Sync), every Parse creating a fresh definition id that is visible in the "
              "statement callback and the RowDescription; transition cover exported, replayed on the real server "
              "(quick: seeded sample), validated by TLC: the Execute callback must name the definition and parameters "
